@@ -271,11 +271,13 @@ func parsePluginFromDir(ctx context.Context, path string) (string, string, error
 		}
 		// only take regular files
 		if info.Mode().IsRegular() {
-			if candidatePluginName, err = parsePluginName(d.Name()); err != nil {
+			name, err := parsePluginName(d.Name())
+			if err != nil {
 				// file name does not follow the notation-{plugin-name} format,
 				// continue
 				return nil
 			}
+			candidatePluginName = name
 			filesWithValidNameFormat = append(filesWithValidNameFormat, p)
 			isExec, err := isExecutableFile(p)
 			if err != nil {
